@@ -30,6 +30,9 @@ type c01Params struct {
 	// negotiated anew under the new configuration
 	Reconf    []uint16 `json:"reconf,omitempty"`
 	ReconfWho string   `json:"reconf_who,omitempty"`
+	// Burst (stream stack): the client's payload is 15 small writes followed by one of 20000 bytes (a record-size
+	// ramp that has left its first step), instead of one write
+	Burst bool `json:"burst,omitempty"`
 	C2S    int    `json:"c2s"`
 	S2C    int    `json:"s2c"`
 }
@@ -37,7 +40,7 @@ type c01Params struct {
 func (c01) ID() string    { return "C01" }
 func (c01) Level() string { return "exploration" }
 func (c01) Rule() string {
-	return "each case draws a (client, server) configuration pair from the seed: enabled suites (subset+order, nil=default), client key pairs (none/sign/sign+enc, trusted/untrusted/expired), the six client-auth policies, client CA set, ALPN lists (empty/disjoint/overlapping/h2-vs-http1.1), server name set or not, server identity (trusted/untrusted/expired/wrong name/none), InsecureSkipVerify, caches on/off (second connection, optionally after one side was reconfigured to other suites), config used directly / Clone() / GetConfigForClient; stack tlcp or dtlcp; transport segmentation and task interleaving from the schedule. The oracle is an independent negotiation model. distinct = distinct (stack, configuration pair, outcome); non-trivial = handshake actually ran to an outcome on both sides"
+	return "each case draws a (client, server) configuration pair from the seed: enabled suites (subset+order, nil=default), client key pairs (none/sign/sign+enc, trusted/untrusted/expired; static, through the callbacks, or one of each), server key pairs static or through the callbacks, the six client-auth policies, client CA set, ALPN lists (empty/disjoint/overlapping/h2-vs-http1.1), server name set or not, server identity (trusted/untrusted/expired/wrong name/none), InsecureSkipVerify, caches on/off (second connection, optionally after one side was reconfigured to other suites), config used directly / Clone() / GetConfigForClient; stack tlcp or dtlcp; transport segmentation and task interleaving from the schedule. The oracle is an independent negotiation model. distinct = distinct (stack, configuration pair, outcome); non-trivial = handshake actually ran to an outcome on both sides"
 }
 func (c01) Components() (real, stub []string) {
 	return []string{"tlcp.Conn client+server (instrumented)", "dtlcp.Conn client+server (instrumented)", "lruSessionCache", "gmsm crypto"},
@@ -153,6 +156,14 @@ func drawC01(src *vs.Src) *c01Params {
 			}
 		}
 	}
+	p.Client.CertVia = pickInt(src, []int{0, 0, 1, 2})
+	if p.Client.CertVia == 2 && !(len(p.Client.Certs) == 2 && p.Client.Certs[0] == "client_sig" && inList(p.Server.ClientCAs, "ca1")) {
+		// "one static, one through its callback" only where the static one passes the server's CA filter: what a
+		// client should do with an encryption certificate but no presentable signing certificate is not specified
+		p.Client.CertVia = 1
+	}
+	p.Server.CertVia = pickInt(src, []int{0, 0, 1})
+	p.Burst = p.Stack == TLCP && src.Bool(1, 6)
 	p.Seg = src.Intn(3)
 	p.C2S = 1 + src.Intn(3000)
 	p.S2C = 1 + src.Intn(3000)
@@ -283,7 +294,10 @@ func Negotiate(cc, sc *EPConf) negoOut {
 		if i >= 2 {
 			break
 		}
-		if inList(cas, certCA(n)) { // the client only answers with certificates from a CA the server named
+		// a static certificate is only presented if it comes from a CA the server named; one that the
+		// application hands out through a callback is presented as it is
+		viaCallback := cc.CertVia == 1 || (cc.CertVia == 2 && i == 1)
+		if viaCallback || inList(cas, certCA(n)) {
 			present = append(present, n)
 		}
 	}
@@ -303,6 +317,9 @@ func Negotiate(cc, sc *EPConf) negoOut {
 			check = present[:2]
 		}
 		for _, n := range check {
+			if !inList(cas, certCA(n)) {
+				return negoOut{Why: "client certificate from a CA the server does not trust"}
+			}
 			if !certValidNow(n) {
 				return negoOut{Why: "client certificate not valid at the configured time"}
 			}
@@ -356,7 +373,14 @@ func (c01) Run(c *Case, src *vs.Src) *Result {
 		outs[i] = &HSOut{}
 	}
 	c2s, s2c := payload(src, p.C2S, 1), payload(src, p.S2C, 2)
-	SpawnHandshakeEcho(w, pairs[0], EchoOpts{Echo: true, C2S: c2s, S2C: s2c}, outs[0], "0")
+	var parts []int
+	if p.Burst {
+		c2s = payload(src, 15*64+20000, 1)
+		for i := 0; i < 15; i++ {
+			parts = append(parts, 64)
+		}
+	}
+	SpawnHandshakeEcho(w, pairs[0], EchoOpts{Echo: true, C2S: c2s, S2C: s2c, C2SParts: parts}, outs[0], "0")
 	reason, unf := w.Run()
 	reasons := []string{reason}
 	unfs := [][]string{unf}
